@@ -82,13 +82,21 @@ def run_sweep(case):
         # this configuration targets dict / set iteration order: many hash seeds, few thread counts
         procs = [(str(h), "explicit") for h in range(8 if quick else 24)] + [("random", "relative")]
         threads = [1, 3]
+    # processes with a history: another configuration ran in the same process first ("independent of the process")
+    PRIOR = {"plain": "tdep", "screening": "callable_currents", "adaptive": "screening", "tdep": "adaptive", "callable_currents": "tdep",
+             "hole_terminals": "screening", "four_terminals": "callable_currents"}
+    procs = [(hs, loc, None) for hs, loc in procs] + [("0", "explicit", PRIOR.get(case["config"], "tdep"))]
     children = []
     base = os.getcwd()
-    for i, (hs, loc) in enumerate(procs):
+    for i, (hs, loc, prior) in enumerate(procs):
         wd = os.path.join(base, f"proc{i}")
         os.makedirs(wd)
         env = dict(os.environ)
-        env.update(PYTHONHASHSEED=hs, NUMBA_NUM_THREADS="16", VERIF_REPO=REPO, VERIF_HOME=str(VERIF), TQDM_DISABLE="1", MPLBACKEND="Agg")
+        env.pop("C09_PRIOR", None)
+        if prior:
+            env["C09_PRIOR"] = prior
+            hs = hs + "+after-" + prior
+        env.update(PYTHONHASHSEED=hs.split("+")[0], NUMBA_NUM_THREADS="16", VERIF_REPO=REPO, VERIF_HOME=str(VERIF), TQDM_DISABLE="1", MPLBACKEND="Agg")
         env["PYTHONPATH"] = f"{REPO}:{VERIF}"
         p = subprocess.Popen([sys.executable, str(VERIF / "mc" / "c09_child.py"), case["config"], loc, ",".join(map(str, threads))],
                              cwd=wd, env=env, stdout=subprocess.PIPE, stderr=subprocess.PIPE, text=True)
